@@ -129,7 +129,8 @@ class CollectionPipelineRule(BaseLintRule):  # thailint: ignore[srp,dry]
 
         # Check for collection_pipeline or collection-pipeline specific config
         linter_config = config_dict.get(
-            "collection_pipeline", config_dict.get("collection-pipeline", config_dict)
+            "collection_pipeline",
+            config_dict.get("collection-pipeline", config_dict.get("pipeline", config_dict)),
         )
         return CollectionPipelineConfig.from_dict(linter_config)
 
